@@ -413,7 +413,7 @@ Definition f_over (_ : cls) (l : list node) : res (list node) :=
 Definition f_functions (_ : cls) (l : list node) : res (list node) :=
   let has_create := existsb (fun tk => text_eqb (upper (nvalue tk)) s_CREATE) l in
   let has_table := existsb (fun tk => text_eqb (upper (nvalue tk)) s_TABLE) l in
-  let has_as := existsb (fun tk => text_eqb (nvalue tk) s_AS) l in
+  let has_as := existsb (fun tk => text_eqb (upper (nvalue tk)) s_AS) l in
   if has_create && has_table && negb has_as then Ok l else
   scan (next_by_from [] [] (TOne T_Name))
        (fun tidx _ l =>
